@@ -29,6 +29,7 @@ ID = "C18"
 LEAN_MODULES = ["PyYetiVerif.Props.C18", "PyYetiVerif.Props.C18Up", "PyYetiVerif.Props.C18Idx", "PyYetiVerif.Props.C18Xyz",
                 "PyYetiVerif.Props.C18Tran", "PyYetiVerif.Props.C18Ulvs", "PyYetiVerif.Props.C18Prt", "PyYetiVerif.Props.C18Cyc",
                 "PyYetiVerif.Props.C18Tran0", "PyYetiVerif.Props.C18TranM",
+                "PyYetiVerif.Props.C18Tran0Fixed", "PyYetiVerif.Props.C18Tran0FixedUp",
                 "PyYetiVerif.Audit.C18"]
 AUDIT_FILE = "PyYetiVerif/Audit/C18.lean"
 THEOREMS = [
@@ -37,6 +38,7 @@ THEOREMS = [
         "base_sets_disjoint superset_is_union superset_is_union_bitwise user_sets_separate inSet_subword table_partition mksetpv_refuses_iff mksetpv_spec mksetpv_named expanddof_digits expanddof2_spec lookup_sound lookup_complete mkdofpv_strict_iff mkdofpv_spec mkdofpv_positions mkdofpv_set mat_intersect_spec find_subseq_spec list_intersect_spec flippv_spec index2bool_spec normIndex_spec find_vals_spec find_rows_spec find_unique_spec find_duplicates_spec index2slice_cases index2slice_spec merge_lists_spec merge_lists_inserts mkusetmask_plus mksetpv_plus make_uset_sets make_uset_accepts make_uset_sets_partial make_uset_split_rows make_uset_ids make_uset_coords_partial upasetpv_spec scatter_spec upqsetpv_length upqsetpv_one_upstream qupOwn_spec "
         "upqsetpv_fuel_stable upqsetpv_fuel_suffices upqsetpv_cycle_diverges cyclic_not_acyclic QConn_iff upqsetpv_spec canFlag_of_flagged separate_of_check upqIdx_eq_upasetpv upasetpv_perm mat_intersect_order mat_intersect_keep1 mat_intersect_keep2 mat_intersect_keep0 mat_intersect_keep_other findse_spec findse_find? nodeIds_spec nodeIds_make xyz_triple_exact find_xyz_triples_exact "
         "formtran_partition_identity formtran_aset_identity formtran_columns_are_target_set ulvsPath_spec ulvsLoop_chain formulvs_chain_is_product formulvs_noshortcut formulvs_cases formdrm_is_rows_of_formtran formdrm_same_se addulvs_consistent memberCol_spec usetprt_table_is_partition_listing mask_expression_is_union mask_expression_members mask_expression_append mask_expression_absorbs mkdofpv_expression find_subseq_mem_iff find_subseq_errors find_rows_other_length mat_intersect_duplicates index_helpers_refuse_together upqsetpv_never_returns_of_progress upqsetpv_cyclic_diverges formtran0_gset formtran0_phg formtran0_pha formtran_mset_composition dotChain_append ulvsPath_mono ulvsPath_split"
+        " iddofG_eq_iddofOf with_whole_table_is_current formtranFixed_eq_current formtranFixed_eq_current_nas iddofG_is_gset_rows formtran0_pha_fixed formtran_partition_identity_fixed formtran_mset_composition_fixed"
     ).split()
 ]
 TRUSTED = [
@@ -146,7 +148,14 @@ PARTIAL = (
     "formtran0_pha (a-set rows = pha rows, s-set rows zero, m-set rows only located in `gm[:, a_n] @ pha`, not expanded). "
     "The rows picked by `iddof[<positions within the g-set>]` are table rows only when every row of the table is in the "
     "g-set (no extra points): the theorems state the code's indexing literally, and the residual with an extra point "
-    "in front of a-set DOF is the open finding F69 (formtran-se0-pha-extra-point-rows); a DOF named twice with gset=True "
+    "in front of a-set DOF is the open finding F69 (formtran-se0-pha-extra-point-rows; the same indexing in formtran for "
+    "se != 0 returns a WRONG MATRIX without an exception, e.g. table e b o b, got [[2, 3]], request the o-set DOF: [[0, 1]]). "
+    "Candidate fix of F69 (corpus/c18_f69_candidate_fix.diff, NOT applied: iddof built from the g-set rows in _proc_mset, "
+    "_formtran_0, formtran): its model formtranFixed is proved with the indexing meaning what it should (iddofG_is_gset_rows, "
+    "formtran0_pha_fixed, formtran_partition_identity_fixed, formtran_mset_composition_fixed) and equal to the current "
+    "model on tables without extra points (with_whole_table_is_current, iddofG_eq_iddofOf, formtranFixed_eq_current, "
+    "formtranFixed_eq_current_nas); tied to the patched text by corpus/c18_f69_candidate_check.py (evidence "
+    "corpus/c18_f69_candidate_evidence.json), not by ./check; a DOF named twice with gset=True "
     "gave a zero row before fix 061ccd9 (F68, repaired: formtran0_gset now holds for every request; regression family "
     "formtran-se0-gset-repeated-dof). formulvs / formdrm / addulvs are proved as products / rows / stored entries of "
     "formtran levels (formulvs_chain_is_product: left-to-right product along the tree path; associativity of the list "
